@@ -10,8 +10,8 @@
    without running any body; an uncached one must run its body exactly once. *)
 EXTENDS Integers, Sequences, FiniteSets, TLC, Json, IOUtils
 T_ == ndJsonDeserialize(IOEnv.TRACE_FILE)
-VARIABLES l, cache, names, reg, tid, bad
-tv == <<l, cache, names, reg, tid, bad>>
+VARIABLES l, cache, names, reg, rreg, tid, bad
+tv == <<l, cache, names, reg, rreg, tid, bad>>
 Range(f) == {f[x] : x \in DOMAIN f}
 Ext(f, k, v) == [x \in DOMAIN f \cup {k} |-> IF x = k THEN v ELSE f[x]]
 Empty == [x \in {} |-> 0]
@@ -21,7 +21,9 @@ RECURSIVE Replay(_, _, _, _)
 Replay(c, calls, bodies, k) ==
   IF k > Len(calls) THEN [cache |-> c, bad |-> ""]
   ELSE LET x == calls[k]  key == <<x[1], x[2]>> IN
-       IF key \in DOMAIN c
+       IF x[4] = "uncached"           \* enable_cache=False: no memoisation, the body runs on every call
+       THEN IF key \notin bodies THEN [cache |-> c, bad |-> "uncached_generator_without_body"] ELSE Replay(c, calls, bodies, k + 1)
+       ELSE IF key \in DOMAIN c
        THEN IF c[key] # x[3] THEN [cache |-> c, bad |-> "memo_identity"]
             ELSE IF key \in bodies THEN [cache |-> c, bad |-> "memo_body_rerun"]
             ELSE Replay(c, calls, bodies, k + 1)
@@ -30,21 +32,25 @@ Replay(c, calls, bodies, k) ==
 
 CallClause(e, c0, n0) ==
   LET bodies == {<<b[1], b[2]>> : b \in Range(e.bodies)}
-      calls  == e.nested \o << <<e.g, e.key, e.mod>> >>
+      calls  == e.nested \o << <<e.g, e.key, e.mod, e.kind>> >>
       r      == Replay(c0, calls, bodies, 1)
       ms     == {<<m[1], m[2]>> : m \in Range(e.mods)}
+      cached == {<<m[1], m[2]>> : m \in {x \in Range(e.mods) : x[3] # "uncached"}}
       fresh  == {<<c[1], c[2]>> : c \in {x \in Range(calls) : x[4] # "pass"}}
-  IN IF e.raised THEN "unexpected_raise"
+  IN IF e.raised THEN (IF e.mayraise THEN "" ELSE "unexpected_raise")
      ELSE IF r.bad # "" THEN r.bad
-     ELSE IF Len(e.bodies) # Cardinality(bodies) THEN "body_ran_twice"
+     ELSE IF Len(e.bodies) # Cardinality(bodies) /\ e.kind # "uncached" THEN "body_ran_twice"
      ELSE IF \E b \in bodies : b \in DOMAIN c0 THEN "cached_body_rerun"
      ELSE IF \E k1, k2 \in DOMAIN r.cache : k1 # k2 /\ k1[1] = k2[1] /\ r.cache[k1] = r.cache[k2] /\ e.kinds[k1[1]] # "pass"
           THEN "distinct_module"
      ELSE IF \E p \in ms : p[1] \in DOMAIN n0 /\ n0[p[1]] # p[2] THEN "renamed"
-     ELSE IF \E p, q \in ms : p[1] # q[1] /\ p[2] = q[2] THEN "name_clash"
+     ELSE IF \E p, q \in cached : p[1] # q[1] /\ p[2] = q[2] THEN "name_clash"
      ELSE ""
 
-Init == l = 1 /\ cache = Empty /\ names = Empty /\ reg = Empty /\ tid = -1 /\ bad = ""
+Init == l = 1 /\ cache = Empty /\ names = Empty /\ reg = Empty /\ rreg = Empty /\ tid = -1 /\ bad = ""
+
+(* two different modules under one name in the same design: the export must be refused *)
+HasClash(n) == \E m1, m2 \in DOMAIN n : m1 # m2 /\ n[m1] = n[m2]
 
 Next ==
   /\ l <= Len(T_)
@@ -54,22 +60,28 @@ Next ==
          n0    == IF fresh THEN Empty ELSE names
          b0    == IF fresh THEN "" ELSE bad
          isCall == e.op = "call"
-         calls == IF isCall THEN e.nested \o << <<e.g, e.key, e.mod>> >> ELSE <<>>
+         calls == IF isCall /\ ~e.raised THEN e.nested \o << <<e.g, e.key, e.mod, e.kind>> >> ELSE <<>>
          bodies == IF isCall THEN {<<b[1], b[2]>> : b \in Range(e.bodies)} ELSE {}
-         r     == IF isCall THEN Replay(c0, calls, bodies, 1) ELSE [cache |-> c0, bad |-> ""]
+         r     == IF isCall /\ ~e.raised THEN Replay(c0, calls, bodies, 1) ELSE [cache |-> c0, bad |-> ""]
          c1    == IF isCall THEN CallClause(e, c0, n0)
+                  ELSE IF HasClash(n0) THEN (IF e.raised THEN "" ELSE "name_clash_exported")
                   ELSE IF e.raised THEN "export_raised"
                   ELSE IF e.npkg # e.nmods THEN "export_module_count" ELSE ""
          key   == <<e.g, e.key>>
          (* the name given to <<g, key>> must be the same in every trace of the batch (other orders, other processes) *)
-         c2    == IF c1 = "" /\ isCall /\ key \in DOMAIN reg /\ reg[key] # e.name THEN "name_depends_on_history" ELSE c1
+         track == isCall /\ ~e.raised /\ e.kind # "uncached"
+         c2    == IF c1 = "" /\ track /\ key \in DOMAIN reg /\ reg[key] # e.name THEN "name_depends_on_history"
+                  ELSE IF c1 = "" /\ track /\ e.name \in DOMAIN rreg /\ rreg[e.name] # <<e.g, e.key>> /\ e.kind # "pass"
+                       THEN "one_name_for_unequal_parameters"
+                  ELSE c1
          b1    == IF b0 # "" THEN b0 ELSE IF c2 = "" THEN "" ELSE c2 \o "@" \o ToString(e.seq)
          last  == l = Len(T_) \/ T_[l + 1].tid # e.tid
      IN /\ cache' = r.cache
-        /\ names' = IF isCall THEN [m \in DOMAIN n0 \cup {p[1] : p \in Range(e.mods)} |->
+        /\ names' = IF isCall /\ ~e.raised THEN [m \in DOMAIN n0 \cup {p[1] : p \in Range(e.mods)} |->
                                      IF m \in DOMAIN n0 THEN n0[m] ELSE (CHOOSE p \in Range(e.mods) : p[1] = m)[2]]
                     ELSE n0
-        /\ reg' = IF isCall /\ ~e.raised /\ key \notin DOMAIN reg THEN Ext(reg, key, e.name) ELSE reg
+        /\ reg' = IF track /\ key \notin DOMAIN reg THEN Ext(reg, key, e.name) ELSE reg
+        /\ rreg' = IF track /\ e.kind # "pass" /\ e.name \notin DOMAIN rreg THEN Ext(rreg, e.name, key) ELSE rreg
         /\ tid' = e.tid /\ bad' = b1 /\ l' = l + 1
         /\ (last => PrintT(<<"VERDICT", e.tid, b1 = "", b1>>))
 Spec == Init /\ [][Next]_tv
